@@ -72,6 +72,7 @@ func c12Observe(id string, env wj.J, intact bool, req []byte, et wire.EnvelopeTy
 	o["ra"] = reqRes()
 	o["st"] = []wj.J{}
 	o["denv"] = wj.J{"ok": false, "ec": "unset", "name": []int{}, "ty": 0, "seq": 0, "body": nilV}
+	o["senv"] = wj.J{"ok": false, "ec": "unset", "name": []int{}, "ty": 0, "seq": 0, "body": nilV}
 	o["panic"] = safely(func() {
 		// DecodeEnveloped
 		de := o["denv"].(wj.J)
@@ -84,6 +85,23 @@ func c12Observe(id string, env wj.J, intact bool, req []byte, et wire.EnvelopeTy
 			if err == nil {
 				de["ok"], de["name"], de["ty"], de["seq"], de["body"] = true, wj.Bytes([]byte(e.Name)), int(e.Type), int(e.SeqID), wj.ToJSON(fv)
 			}
+		}
+		// stream envelope header + body (ReadEnvelopeBegin), one-byte reads
+		se := o["senv"].(wj.J)
+		{
+			ch := sx.NewChunked(req, "one", seed)
+			r := binary.Default.Reader(ch)
+			eh, err := r.ReadEnvelopeBegin()
+			se["ec"] = envErrClass(err)
+			if err == nil {
+				var bv wire.Value
+				bv, err = sx.ReadValue(r, wire.TStruct)
+				se["ec"] = envErrClass(err)
+				if err == nil {
+					se["ok"], se["name"], se["ty"], se["seq"], se["body"] = true, wj.Bytes([]byte(eh.Name)), int(eh.Type), int(eh.SeqID), wj.ToJSON(bv)
+				}
+			}
+			r.Close()
 		}
 		// random-access request API
 		ra := o["ra"].(wj.J)
@@ -250,7 +268,10 @@ func cmdC12(args []string) error {
 		}
 		body := randValue(r, wire.TStruct, 1+r.Intn(2))
 		fb, _ := wj.Force(body)
-		ty := []int{1, 2, 3, 4, 1, 4, 5, 77, 127, 0}[r.Intn(10)]
+		ty := []int{1, 2, 3, 4, 1, 4}[r.Intn(6)]
+		if r.Intn(2) == 0 {
+			ty = r.Intn(128)
+		}
 		seq := int32(r.Uint32())
 		fr := frs[r.Intn(3)]
 		if len(name) > 300 {
